@@ -216,13 +216,13 @@ func walkSchemas(doc map[string]any, f func(s map[string]any)) {
 }
 
 type c15step struct {
-	Kind int // 0 apply, 1 apply again (idempotence), 2 delete key, 3 set key, 4 replace subtree, 5 mutate inserted container, 6 switch instance, 7 validate
+	Kind int // 0 apply, 1 apply again (idempotence), 2 delete key, 3 set key, 4 replace subtree, 5 mutate inserted container, 6 switch instance, 7 validate, 8 mutate an inserted container in place, drop it from the instance, apply the same schema again
 	R    int
 	A, B int
 }
 
 func (s c15step) String() string {
-	return fmt.Sprintf("%s(%d,%d,%d)", []string{"apply", "apply-twice", "delete", "set", "replace", "mutate-inserted", "switch", "validate"}[s.Kind], s.R, s.A, s.B)
+	return fmt.Sprintf("%s(%d,%d,%d)", []string{"apply", "apply-twice", "delete", "set", "replace", "mutate-inserted", "switch", "validate", "mutate-drop-reapply"}[s.Kind], s.R, s.A, s.B)
 }
 
 // pathsOf lists the object-valued positions of an instance (as key paths).
@@ -286,7 +286,7 @@ func driveC15(c *Ctx) {
 	nsteps := 4 + c.W(7)
 	steps := []c15step{{Kind: 0, R: 0}}
 	for len(steps) < nsteps {
-		k := []int{0, 0, 1, 1, 2, 3, 4, 5, 5, 6, 7}[c.W(11)]
+		k := []int{0, 0, 1, 1, 2, 3, 4, 5, 5, 6, 7, 8, 8}[c.W(13)]
 		steps = append(steps, c15step{Kind: k, R: c.W(nw), A: c.W(16), B: c.W(16)})
 	}
 	c.In("history %v", steps)
@@ -296,6 +296,7 @@ func driveC15(c *Ctx) {
 	}
 
 	// ValidateDefaults clause.
+	validWorld := make([]bool, len(worlds))
 	for wi, w := range worlds {
 		allValid := true
 		walkSchemas(w.Doc, func(s map[string]any) {
@@ -329,6 +330,7 @@ func driveC15(c *Ctx) {
 		if !r.Panicked && (rerr == nil) != allValid {
 			c.Fail("C15/validate-defaults", fmt.Sprint(allValid), "schema %d: Resolve(ValidateDefaults) ok=%v, but every default validates against its declaring subschema = %v (error: %v)", wi, rerr == nil, allValid, rerr)
 		}
+		validWorld[wi] = allValid
 		if allValid {
 			c.Probe("all-defaults-valid")
 		} else {
@@ -336,6 +338,12 @@ func driveC15(c *Ctx) {
 		}
 	}
 
+	// The recommended sequence is Resolve(ValidateDefaults) then ApplyDefaults: use it for some worlds.
+	withVD := make([]bool, len(worlds))
+	for wi := range worlds {
+		withVD[wi] = validWorld[wi] && c.W(2) == 0
+	}
+	c.In("validate-defaults %v", withVD)
 	scheds := []schedule{{simrt.OrderSorted, 64, 0}, {simrt.OrderReversed, 64, 1}, {simrt.OrderPerVisit, 64, 2}, {simrt.OrderShuffle, 64, 3}}
 	var baseStates []string
 	nontrivial := false
@@ -346,10 +354,13 @@ func driveC15(c *Ctx) {
 		for wi, w := range worlds {
 			var s jsonschema.Schema
 			json.Unmarshal([]byte(w.Text), &s)
-			res, err := s.Resolve(nil)
+			res, err := s.Resolve(&jsonschema.ResolveOptions{ValidateDefaults: withVD[wi]})
 			if err != nil {
 				c.Fail("C15/legitimate", "resolve", "schema %d does not resolve: %v", wi, err)
 				return
+			}
+			if withVD[wi] {
+				c.Probe("resolved-with-ValidateDefaults")
 			}
 			rs = append(rs, res)
 		}
@@ -357,10 +368,34 @@ func driveC15(c *Ctx) {
 		cur := 0
 		var lastInserted [][]string // object paths in the current instance that an application created
 		var states []string
+		lastR := 0
 		for ti, st := range steps {
+			if st.Kind == 8 {
+				// isolation across applications: what the client does to a value that
+				// ApplyDefaults inserted must not change what a later application inserts
+				if len(lastInserted) == 0 {
+					states = append(states, typedJSONDeep(insts[0])+"|"+typedJSONDeep(insts[1]))
+					continue
+				}
+				p := lastInserted[st.A%len(lastInserted)]
+				if m := at(insts[cur], p); m != nil {
+					m["mutated-by-client"] = "x"
+					for _, k := range sortedKeys(m) {
+						if k != "mutated-by-client" {
+							m[k] = "overwritten-by-client"
+						}
+					}
+				}
+				if parent := at(insts[cur], p[:len(p)-1]); parent != nil {
+					delete(parent, p[len(p)-1])
+				}
+				c.Probe("mutate-drop-reapply")
+				st = c15step{Kind: 0, R: lastR}
+			}
 			doc := worlds[st.R].Doc
 			switch st.Kind {
 			case 0, 1:
+				lastR = st.R
 				before := clone(insts[cur])
 				holder := insts[cur]
 				var err error
